@@ -37,7 +37,7 @@ def gen(lemma, stmt, pre, tac, extra_params="", skip=()):
             continue
         names.append(ln)
         out.append("Lemma %s u %s cpu %s : %s." % (ln, ps, extra_params, stmt(term)))
-        out.append("Proof. open_cpu cpu. %s%s; %s Qed." % (pre, DESTR, tac))
+        out.append("Proof. %s%s; open_cpu cpu; %s Qed." % (pre, DESTR, tac))
     return out, names
 
 
@@ -52,40 +52,36 @@ out, names = gen('exec_swap', lambda t: "exec u MIY %s (swapXY cpu) = swapXY (ex
 out += ["Lemma exec_swap u i cpu : exec u MIY i (swapXY cpu) = swapXY (exec u MIX i cpu).",
         "Proof. destruct i; [ " + " | ".join("apply %s" % n for n in names) + " ]. Qed.",
         "Lemma exec_idxcb_swap u dd i cpu : exec_idxcb u MIY dd i (swapXY cpu) = swapXY (exec_idxcb u MIX dd i cpu).",
-        "Proof. open_cpu cpu. all_cases i; (unfold swapXY; spec_norm); close_case. Qed."]
+        "Proof. all_cases i; try rename b into b_; open_cpu cpu; (unfold swapXY; spec_norm); close_case. Qed."]
 wr('SpecAllSwap.v', out)
 
 out, names = gen('exec_ix_ign', lambda t: "exec u MIX %s (s_IY cpu v) = s_IY (exec u MIX %s cpu) v" % (t, t), "", "spec_norm; close_case.", extra_params="v")
 out += ["Lemma exec_ix_ignores_iy u i cpu v : exec u MIX i (s_IY cpu v) = s_IY (exec u MIX i cpu) v.",
         "Proof. destruct i; [ " + " | ".join("apply %s" % n for n in names) + " ]. Qed.",
         "Lemma exec_idxcb_ix_ignores_iy u dd i cpu v : exec_idxcb u MIX dd i (s_IY cpu v) = s_IY (exec_idxcb u MIX dd i cpu) v.",
-        "Proof. open_cpu cpu. all_cases i; spec_norm; close_case. Qed."]
-out[2] = "From Z80V Require Export Proofs.SpecAllSwap."
+        "Proof. all_cases i; try rename b into b_; open_cpu cpu; spec_norm; close_case. Qed."]
 wr('SpecAllIx.v', out)
 
 out, names = gen('exec_iy_ign', lambda t: "exec u MIY %s (s_IX cpu v) = s_IX (exec u MIY %s cpu) v" % (t, t), "", "spec_norm; close_case.", extra_params="v")
 out += ["Lemma exec_iy_ignores_ix u i cpu v : exec u MIY i (s_IX cpu v) = s_IX (exec u MIY i cpu) v.",
         "Proof. destruct i; [ " + " | ".join("apply %s" % n for n in names) + " ]. Qed.",
         "Lemma exec_idxcb_iy_ignores_ix u dd i cpu v : exec_idxcb u MIY dd i (s_IX cpu v) = s_IX (exec_idxcb u MIY dd i cpu) v.",
-        "Proof. open_cpu cpu. all_cases i; spec_norm; close_case. Qed."]
-out[2] = "From Z80V Require Export Proofs.SpecAllIx."
+        "Proof. all_cases i; try rename b into b_; open_cpu cpu; spec_norm; close_case. Qed."]
 wr('SpecAllIy.v', out)
 
 ENV = ("g_Interrupt cpu' = g_Interrupt cpu /\\ g_Memory cpu' = g_Memory cpu /\\ g_IO cpu' = g_IO cpu /\\ "
        "g_RETIHandler cpu' = g_RETIHandler cpu /\\ g_RETNHandler cpu' = g_RETNHandler cpu /\\ g_BreakPoints cpu' = g_BreakPoints cpu")
 out, names = gen('exec_env', lambda t: "let cpu' := exec u m %s cpu in %s" % (t, ENV), "destruct m; ",
-                 "spec_norm; first [ solve [repeat split] | solve [destruct_ifs; spec_norm; repeat split] ].", extra_params="(m : mode)")
+                 "spec_norm; first [ solve [repeat split] | solve [split_ifs; repeat split] ].", extra_params="(m : mode)")
 out += ["Lemma exec_keeps_env u m i cpu : let cpu' := exec u m i cpu in %s." % ENV,
         "Proof. destruct i; [ " + " | ".join("apply %s" % n for n in names) + " ]. Qed."]
-out[2] = "From Z80V Require Export Proofs.SpecAllIy."
 wr('SpecAllEnv.v', out)
 
 out, names = gen('exec_ir', lambda t: "g_IR (exec u m %s cpu) = g_IR cpu" % t, "destruct m; ",
-                 "spec_norm; first [ syn_refl | solve [destruct_ifs; spec_norm; syn_refl] ].", extra_params="(m : mode)", skip=("LD_I_A", "LD_R_A"))
+                 "spec_norm; first [ syn_refl | solve [split_ifs; syn_refl] ].", extra_params="(m : mode)", skip=("LD_I_A", "LD_R_A"))
 out += ["Lemma exec_keeps_ir u m i cpu : writes_ir i = false -> g_IR (exec u m i cpu) = g_IR cpu.",
         "Proof. intros E. destruct i; try discriminate E; [ " + " | ".join("apply %s" % n for n in names) + " ]. Qed.",
         "Lemma exec_idxcb_keeps_ir u m dd i cpu : g_IR (exec_idxcb u m dd i cpu) = g_IR cpu.",
-        "Proof. open_cpu cpu. destruct m; all_cases i; spec_norm; first [ syn_refl | solve [destruct_ifs; spec_norm; syn_refl] ]. Qed."]
-out[2] = "From Z80V Require Export Proofs.SpecAllEnv."
+        "Proof. destruct m; all_cases i; try rename b into b_; open_cpu cpu; spec_norm; first [ syn_refl | solve [split_ifs; syn_refl] ]. Qed."]
 wr('SpecAllIR.v', out)
 print("constructors:", len(ctors))
